@@ -856,10 +856,17 @@ def RecordAdapter(
         p = urlparse(url, scheme=adapter_scheme)
         adapter, _, sub_adapter = p.scheme.partition("+")
 
-        arg_dict = dict(parse_qsl(p.query))
+        cls_url = p.netloc + p.path
+        query = p.query
+        if p.fragment:
+            # a '#' in a file name is part of the name, not a URL fragment to drop (the options follow the last '?')
+            fragment, _, fragment_query = p.fragment.partition("?")
+            cls_url += "#" + fragment
+            query = query or fragment_query
+
+        arg_dict = dict(parse_qsl(query))
         arg_dict.update(kwargs)
 
-        cls_url = p.netloc + p.path
         if sub_adapter:
             cls_url = sub_adapter + "://" + cls_url
     if out is False:
